@@ -1,7 +1,7 @@
 package main
 
 func init() {
-	for _, id := range []string{"C01", "C02", "C03", "C04", "C05", "C06", "C07", "C08", "C09", "C10", "C11", "C14", "C15", "C16", "C19", "C20"} {
+	for _, id := range []string{"C01", "C02", "C04", "C05", "C06", "C07", "C08", "C09", "C10", "C11", "C14", "C15", "C16", "C19", "C20"} {
 		notApplicable[id] = "not yet claimed: contracts for this property are still being written (see DESIGN.md); no check is registered"
 	}
 	notApplicable["C12"] = "command/response matching lives in goroutine, channel and timer interplay (onActiveEvent/onActiveRespondEvent/write); no sequential function contract within the verifier's subset carries the claim"
@@ -15,5 +15,24 @@ func init() {
 		Decided: "full functional contract of Packet.Decode/decodeHead (error classification, every header field by offset and bit, " +
 			"payload and remainder slices) plus absence of panics and over-reads, for all inputs and any prior receiver state",
 		Undecided: []string{"the concatenation claim follows from the remainder clause by induction on the number of packets (pen-and-paper step)"},
+	})
+}
+
+func init() {
+	registerProp(&PropDef{
+		ID:    "C03",
+		Title: "Decoders are total functions of their input",
+		Roots: []string{
+			`re:^model\.\(\*[A-Za-z0-9]+\)\.Parse$`,
+			"jt808.(*JTMessage).Decode", "jt808.unescape", "jt808.(*Header).decode", "jt808.(*BodyProperty).decode",
+			"jt1078.(*Packet).Decode", "jt1078.(*Packet).decodeHead",
+			"utils.Bcd2Dec", "utils.bcdConvert", "utils.BCD2Time", "utils.CreateVerifyCode", "utils.nibbleToHexChar",
+		},
+		Exclude: []string{`BaseHandle`},
+		Decided: "for every decoder listed: every implicit panic site (index, slice, nil, conversion, map, division), every read beyond len(slice) and " +
+			"termination of every loop, as obligations over fully symbolic input bytes, header version, dialect and prior receiver state",
+		Undecided: []string{"String()/Encode() rendering of parsed values (thorough tier adds them as roots when modelled)",
+			"receiver-independence is decided only where a functional postcondition (C07/C08/C17 clauses) pins every field"},
+		Assume: []string{"user hooks (CustomAdditionContentFunc, ParamParseBeforeFunc) are nil: the default configuration"},
 	})
 }
